@@ -179,6 +179,9 @@ pub struct C04Case {
     /// the base file carries the legacy (<= 0.10) header format in both slots (the first commit of the
     /// chain is the upgrade commit)
     pub legacy_base: bool,
+    /// the older header slot of the base file is torn (what a crash inside a header write leaves):
+    /// every commit of the chain that targets it has to replace it without touching the other one
+    pub torn_base: bool,
     /// staged case (two readers, six commits): reader 1 begins after commit 2; reader 0 (begun on
     /// the base state) looks again and ends after commit 4 (so two writers begin while both readers
     /// are open); the writer makes commits 5 and 6 only after that; reader 1 looks again after the last commit.  The waits are blocking (no preemption is
@@ -228,6 +231,16 @@ pub fn c04_run(case: &C04Case, base: &Base, path: &str, prefix: &[u8], policy: R
             use std::os::unix::fs::FileExt;
             if let Ok(f) = std::fs::OpenOptions::new().write(true).open(path) {
                 let _ = f.write_all_at(&bytes[..2 * ps as usize], 0);
+            }
+        }
+    }
+    if case.torn_base {
+        let bytes = crate::runner::read_db_file(path, base.cfg.pagesize);
+        if let Ok(m) = crate::fileck::choose_meta(&bytes, base.cfg.pagesize) {
+            use std::os::unix::fs::FileExt;
+            let at = (1 - m.slot) * base.cfg.pagesize + crate::fileck::REC_OFF as u64 + 56;
+            if let Ok(f) = std::fs::OpenOptions::new().write(true).open(path) {
+                let _ = f.write_all_at(&[0xA5u8; 8], at);
             }
         }
     }
@@ -453,61 +466,65 @@ fn c04_cases(tier: Tier) -> Vec<(C04Case, usize)> {
     // every chain of two commits x one reader
     for a in 0..nm {
         for b in 0..nm {
-            v.push((C04Case { legacy_base: false, readers_wait: false, fsync_fault2: None, header_fault: None, second: vec![], fsync_fault: None, chain: vec![a, b], readers: 1, dumps: 2 }, if tier == Tier::Quick { 2 } else { 3 }));
+            v.push((C04Case { torn_base: false, legacy_base: false, readers_wait: false, fsync_fault2: None, header_fault: None, second: vec![], fsync_fault: None, chain: vec![a, b], readers: 1, dumps: 2 }, if tier == Tier::Quick { 2 } else { 3 }));
         }
     }
     // chains of three commits against one reader at two preemptions: a reader that begins in the
     // middle of the first commit and stays open across the next two
     if tier == Tier::Quick {
         for chain in [vec![0, 3, 5], vec![5, 2, 3], vec![1, 0, 2], vec![2, 5, 3]] {
-            v.push((C04Case { legacy_base: false, readers_wait: false, fsync_fault2: None, header_fault: None, second: vec![], fsync_fault: None, chain, readers: 1, dumps: 2 }, 2));
+            v.push((C04Case { torn_base: false, legacy_base: false, readers_wait: false, fsync_fault2: None, header_fault: None, second: vec![], fsync_fault: None, chain, readers: 1, dumps: 2 }, 2));
         }
     }
     // a commit whose final sync fails in the middle of the chain, with a reader around
     for (chain, at) in [(vec![0, 3, 5], 0usize), (vec![5, 2, 3], 1), (vec![1, 0, 2], 0)] {
-        v.push((C04Case { legacy_base: false, readers_wait: false, fsync_fault2: None, header_fault: None, second: vec![], fsync_fault: Some(at), chain, readers: 1, dumps: 2 }, 2));
+        v.push((C04Case { torn_base: false, legacy_base: false, readers_wait: false, fsync_fault2: None, header_fault: None, second: vec![], fsync_fault: Some(at), chain, readers: 1, dumps: 2 }, 2));
     }
     // two writer threads (commuting chains) and a reader: a writer that begins while the other is
     // still inside its commit
     for (chain, second) in [(vec![0, 2], vec![3]), (vec![5, 1], vec![4]), (vec![3], vec![2, 5])] {
-        v.push((C04Case { legacy_base: false, readers_wait: false, fsync_fault2: None, header_fault: None, second, fsync_fault: None, chain, readers: 1, dumps: 2 }, 2));
+        v.push((C04Case { torn_base: false, legacy_base: false, readers_wait: false, fsync_fault2: None, header_fault: None, second, fsync_fault: None, chain, readers: 1, dumps: 2 }, 2));
     }
     // a legacy-format file: the upgrade commit and the one after it against a reader
     for chain in [vec![0, 3], vec![5, 1, 0]] {
-        v.push((C04Case { legacy_base: true, readers_wait: false, fsync_fault2: None, header_fault: None, second: vec![], fsync_fault: None, chain, readers: 1, dumps: 2 }, 2));
+        v.push((C04Case { torn_base: false, legacy_base: true, readers_wait: false, fsync_fault2: None, header_fault: None, second: vec![], fsync_fault: None, chain, readers: 1, dumps: 2 }, 2));
     }
     // two failing final syncs in a row with a reader beginning in between and staying
-    v.push((C04Case { legacy_base: false, readers_wait: false, fsync_fault2: Some(1), header_fault: None, second: vec![], fsync_fault: Some(0), chain: vec![0, 1, 0, 1], readers: 1, dumps: 2 }, 2));
+    // the base file has one torn header slot: the first commit replaces it while a reader begins
+    for chain in [vec![0, 1], vec![3, 5, 0]] {
+        v.push((C04Case { torn_base: true, legacy_base: false, readers_wait: false, fsync_fault2: None, header_fault: None, second: vec![], fsync_fault: None, chain, readers: 1, dumps: 2 }, 2));
+    }
+    v.push((C04Case { torn_base: false, legacy_base: false, readers_wait: false, fsync_fault2: Some(1), header_fault: None, second: vec![], fsync_fault: Some(0), chain: vec![0, 1, 0, 1], readers: 1, dumps: 2 }, 2));
     // two commits in a row whose final sync fails; a commit whose header write fails followed by
     // different commits
     for (chain, f1, f2) in [(vec![0, 3, 5, 2], 0usize, 1usize), (vec![5, 2, 3, 0], 1, 2)] {
-        v.push((C04Case { legacy_base: false, readers_wait: false, fsync_fault2: Some(f2), header_fault: None, second: vec![], fsync_fault: Some(f1), chain, readers: 1, dumps: 2 }, if tier == Tier::Quick { 1 } else { 2 }));
+        v.push((C04Case { torn_base: false, legacy_base: false, readers_wait: false, fsync_fault2: Some(f2), header_fault: None, second: vec![], fsync_fault: Some(f1), chain, readers: 1, dumps: 2 }, if tier == Tier::Quick { 1 } else { 2 }));
     }
     for (chain, h) in [(vec![5, 0, 2, 3], 0usize), (vec![0, 3, 5, 2], 1), (vec![2, 5, 1, 3], 0)] {
-        v.push((C04Case { legacy_base: false, readers_wait: false, fsync_fault2: None, header_fault: Some(h), second: vec![], fsync_fault: None, chain, readers: 1, dumps: 2 }, if tier == Tier::Quick { 1 } else { 2 }));
+        v.push((C04Case { torn_base: false, legacy_base: false, readers_wait: false, fsync_fault2: None, header_fault: Some(h), second: vec![], fsync_fault: None, chain, readers: 1, dumps: 2 }, if tier == Tier::Quick { 1 } else { 2 }));
     }
     // two readers on different snapshots, the older one ending first, across four commits; readers
     // wait for the next commit between their dumps (a blocked thread is switched away from for free)
     for chain in if tier == Tier::Quick { vec![vec![0, 1, 0, 1, 0, 1], vec![0, 3, 5, 2, 0, 1]] } else { vec![vec![0, 1, 0, 1, 0, 1], vec![0, 3, 5, 2, 0, 1], vec![5, 2, 3, 0, 1, 0], vec![2, 5, 1, 3, 0, 2]] } {
-        v.push((C04Case { legacy_base: false, readers_wait: true, fsync_fault2: None, header_fault: None, second: vec![], fsync_fault: None, chain, readers: 2, dumps: 2 }, if tier == Tier::Quick { 1 } else { 2 }));
+        v.push((C04Case { torn_base: false, legacy_base: false, readers_wait: true, fsync_fault2: None, header_fault: None, second: vec![], fsync_fault: None, chain, readers: 2, dumps: 2 }, if tier == Tier::Quick { 1 } else { 2 }));
     }
     // a commit that grows (and maps again) the file while a reader begins
     for chain in [vec![6, 0], vec![0, 6, 2]] {
-        v.push((C04Case { legacy_base: false, readers_wait: false, fsync_fault2: None, header_fault: None, second: vec![], fsync_fault: None, chain, readers: 1, dumps: 2 }, 2));
+        v.push((C04Case { torn_base: false, legacy_base: false, readers_wait: false, fsync_fault2: None, header_fault: None, second: vec![], fsync_fault: None, chain, readers: 1, dumps: 2 }, 2));
     }
     // asymmetric chains of three, two readers
-    v.push((C04Case { legacy_base: false, readers_wait: false, fsync_fault2: None, header_fault: None, second: vec![], fsync_fault: None, chain: vec![0, 3, 5], readers: 2, dumps: 2 }, if tier == Tier::Quick { 1 } else { 2 }));
-    v.push((C04Case { legacy_base: false, readers_wait: false, fsync_fault2: None, header_fault: None, second: vec![], fsync_fault: None, chain: vec![5, 2, 3], readers: 2, dumps: 2 }, if tier == Tier::Quick { 1 } else { 2 }));
+    v.push((C04Case { torn_base: false, legacy_base: false, readers_wait: false, fsync_fault2: None, header_fault: None, second: vec![], fsync_fault: None, chain: vec![0, 3, 5], readers: 2, dumps: 2 }, if tier == Tier::Quick { 1 } else { 2 }));
+    v.push((C04Case { torn_base: false, legacy_base: false, readers_wait: false, fsync_fault2: None, header_fault: None, second: vec![], fsync_fault: None, chain: vec![5, 2, 3], readers: 2, dumps: 2 }, if tier == Tier::Quick { 1 } else { 2 }));
     if tier == Tier::Thorough {
         for a in 0..nm {
             for b in 0..nm {
                 for c in 0..nm {
-                    v.push((C04Case { legacy_base: false, readers_wait: false, fsync_fault2: None, header_fault: None, second: vec![], fsync_fault: None, chain: vec![a, b, c], readers: 1, dumps: 2 }, 2));
+                    v.push((C04Case { torn_base: false, legacy_base: false, readers_wait: false, fsync_fault2: None, header_fault: None, second: vec![], fsync_fault: None, chain: vec![a, b, c], readers: 1, dumps: 2 }, 2));
                 }
             }
         }
-        v.push((C04Case { legacy_base: false, readers_wait: false, fsync_fault2: None, header_fault: None, second: vec![], fsync_fault: None, chain: vec![0, 3, 5, 2], readers: 1, dumps: 3 }, 3));
-        v.push((C04Case { legacy_base: false, readers_wait: false, fsync_fault2: None, header_fault: None, second: vec![], fsync_fault: None, chain: vec![3, 0, 2, 5], readers: 2, dumps: 2 }, 2));
+        v.push((C04Case { torn_base: false, legacy_base: false, readers_wait: false, fsync_fault2: None, header_fault: None, second: vec![], fsync_fault: None, chain: vec![0, 3, 5, 2], readers: 1, dumps: 3 }, 3));
+        v.push((C04Case { torn_base: false, legacy_base: false, readers_wait: false, fsync_fault2: None, header_fault: None, second: vec![], fsync_fault: None, chain: vec![3, 0, 2, 5], readers: 2, dumps: 2 }, 2));
     }
     v
 }
@@ -736,17 +753,17 @@ pub fn run(check: &mut Check, prop: &str, cases: Vec<CaseInfo>, policies: &[&str
 fn c03_thread_cases(tier: Tier) -> Vec<(C04Case, usize)> {
     let mut v = vec![];
     for chain in [vec![0, 3, 5], vec![5, 2, 3], vec![1, 0, 2], vec![2, 5, 3], vec![3, 1, 4], vec![4, 4, 0]] {
-        v.push((C04Case { legacy_base: false, readers_wait: false, fsync_fault2: None, header_fault: None, second: vec![], fsync_fault: None, chain, readers: 1, dumps: 2 }, 2));
+        v.push((C04Case { torn_base: false, legacy_base: false, readers_wait: false, fsync_fault2: None, header_fault: None, second: vec![], fsync_fault: None, chain, readers: 1, dumps: 2 }, 2));
     }
-    v.push((C04Case { legacy_base: false, readers_wait: false, fsync_fault2: None, header_fault: None, second: vec![], fsync_fault: None, chain: vec![0, 3, 5], readers: 2, dumps: 2 }, 1));
+    v.push((C04Case { torn_base: false, legacy_base: false, readers_wait: false, fsync_fault2: None, header_fault: None, second: vec![], fsync_fault: None, chain: vec![0, 3, 5], readers: 2, dumps: 2 }, 1));
     if tier == Tier::Thorough {
         let nm = c04_menu().len() - 1; // the growth body is used by its own cases only
         for a in 0..nm {
             for b in 0..nm {
-                v.push((C04Case { legacy_base: false, readers_wait: false, fsync_fault2: None, header_fault: None, second: vec![], fsync_fault: None, chain: vec![a, b, (a + b + 1) % nm], readers: 1, dumps: 3 }, 2));
+                v.push((C04Case { torn_base: false, legacy_base: false, readers_wait: false, fsync_fault2: None, header_fault: None, second: vec![], fsync_fault: None, chain: vec![a, b, (a + b + 1) % nm], readers: 1, dumps: 3 }, 2));
             }
         }
-        v.push((C04Case { legacy_base: false, readers_wait: false, fsync_fault2: None, header_fault: None, second: vec![], fsync_fault: None, chain: vec![5, 2, 3, 0], readers: 2, dumps: 2 }, 2));
+        v.push((C04Case { torn_base: false, legacy_base: false, readers_wait: false, fsync_fault2: None, header_fault: None, second: vec![], fsync_fault: None, chain: vec![5, 2, 3, 0], readers: 2, dumps: 2 }, 2));
     }
     v
 }
@@ -763,7 +780,7 @@ fn case_infos(cases: Vec<(C04Case, usize)>) -> Vec<CaseInfo> {
     let menu = c04_menu();
     cases
         .iter()
-        .map(|(c, bound)| CaseInfo { label: format!("chain{:?}{}{}-r{}-c{}", c.chain, if c.second.is_empty() { String::new() } else { format!("+w2{:?}", c.second) }, format!("{}{}{}", c.fsync_fault.map(|i| format!("-fsyncfail@{}", i)).unwrap_or_default(), c.fsync_fault2.map(|i| format!("+{}", i)).unwrap_or_default(), c.header_fault.map(|i| format!("-headerwritefail@{}", i)).unwrap_or_default()) + if c.readers_wait { "-staged-two-ages" } else { "" } + if c.legacy_base { "-legacy-format-base" } else { "" }, c.readers, bound), describe: json!({"writer_chain": c.chain.iter().map(|&m| menu[m].iter().map(|o| o.to_json()).collect::<Vec<_>>()).collect::<Vec<_>>(), "second_writer_chain": c.second, "readers": c.readers, "dumps_per_reader": c.dumps, "preemption_bound": bound}) })
+        .map(|(c, bound)| CaseInfo { label: format!("chain{:?}{}{}-r{}-c{}", c.chain, if c.second.is_empty() { String::new() } else { format!("+w2{:?}", c.second) }, format!("{}{}{}", c.fsync_fault.map(|i| format!("-fsyncfail@{}", i)).unwrap_or_default(), c.fsync_fault2.map(|i| format!("+{}", i)).unwrap_or_default(), c.header_fault.map(|i| format!("-headerwritefail@{}", i)).unwrap_or_default()) + if c.readers_wait { "-staged-two-ages" } else { "" } + if c.legacy_base { "-legacy-format-base" } else { "" } + if c.torn_base { "-torn-slot-base" } else { "" }, c.readers, bound), describe: json!({"writer_chain": c.chain.iter().map(|&m| menu[m].iter().map(|o| o.to_json()).collect::<Vec<_>>()).collect::<Vec<_>>(), "second_writer_chain": c.second, "readers": c.readers, "dumps_per_reader": c.dumps, "preemption_bound": bound}) })
         .collect()
 }
 
